@@ -367,6 +367,85 @@ pub mod kb4a4 {
         Ok((circuit, traces))
     }
 
+    /// `build_and_run` for the free-state arm: the cap is either supplied (public inputs) or left
+    /// to be learnt (private inputs that are withheld, so that the computed root fills their slots);
+    /// `fault` = (hook call, limb, delta) on the private input state of the permutation rows.
+    /// Returns the circuit, the traces and the cap as probed after the run.
+    #[allow(clippy::type_complexity)]
+    pub fn build_and_run_free(shape: &MmcsShape, index: usize, cap: Option<&[Vec<u64>]>, fault: Option<(usize, usize, u64)>) -> Result<(p3_circuit::Circuit<CF>, p3_circuit::tables::Traces<CF>, Vec<Vec<u64>>, bool), String> {
+        use std::sync::Arc;
+        use std::sync::atomic::{AtomicUsize, Ordering};
+        let (perm, m) = mmcs(shape.cap_height);
+        let ms = mats(shape);
+        let dimensions: Vec<_> = ms.iter().map(|m| m.dimensions()).collect();
+        let max_h = shape.dims.iter().map(|d| d.0).max().unwrap();
+        let log_max = log2_ceil_usize(max_h);
+        let (commit, pd) = m.commit(ms);
+        let index = index % max_h;
+        let opening = m.open_batch(index, &pd);
+        if commit.num_roots() != 1 {
+            return Err("free-state arm needs a single cap entry".into());
+        }
+        let proof = &opening.opening_proof;
+        let cfg = Poseidon2Config::KOALA_BEAR_D4_W32;
+        let mut b = CircuitBuilder::<CF>::new();
+        b.enable_poseidon2_perm_width_32::<KoalaBearD4Width32, _>(generate_poseidon2_trace::<CF, KoalaBearD4Width32>, perm.clone());
+        b.enable_recompose::<F>(generate_recompose_trace::<F, CF>);
+        let openings: Vec<Vec<_>> = opening.opened_values.iter().map(|o| (0..o.len()).map(|_| b.public_input()).collect()).collect();
+        let dirs = b.alloc_public_inputs(log_max, "directions");
+        let caps: Vec<Vec<_>> = if cap.is_some() { vec![b.alloc_public_inputs(DIGEST_ELEMS / 4, "cap").to_vec()] } else { vec![(0..DIGEST_ELEMS / 4).map(|_| b.alloc_private_input("cap")).collect()] };
+        for (k, t) in caps[0].iter().enumerate() {
+            b.tag(*t, format!("cap{k}")).map_err(|e| format!("{e:?}"))?;
+        }
+        let ops = verify_batch_circuit_arity4::<F, CF>(&mut b, cfg, &caps, &dimensions, &dirs, &openings).map_err(|e| format!("{e:?}"))?;
+        let circuit = b.build().map_err(|e| format!("{e:?}"))?;
+        let mut pubs: Vec<CF> = opening.opened_values.iter().flat_map(|v| v.iter().map(|x| CF::from(*x))).collect();
+        pubs.extend((0..log_max).map(|k| CF::from_bool((index >> k) & 1 == 1)));
+        if let Some(c) = cap {
+            pubs.extend(c.iter().map(|w| crate::gprog::f_from_u64s::<F, CF>(w)));
+        }
+        if ops.len() != proof.len() {
+            return Err(format!("{} sibling slots for {} proof digests", ops.len(), proof.len()));
+        }
+        let fired = Arc::new(AtomicUsize::new(0));
+        let traces = {
+            let mut r = circuit.runner();
+            if let Some((call, limb, delta)) = fault {
+                let cnt = AtomicUsize::new(0);
+                let f2 = fired.clone();
+                r.set_verif_free_state_tamper(Box::new(move |_op, st: &mut [CF]| {
+                    if cnt.fetch_add(1, Ordering::SeqCst) == call {
+                        if let Some(x) = st.get_mut(limb) {
+                            *x += CF::from(F::from_u64(delta));
+                            f2.fetch_add(1, Ordering::SeqCst);
+                        }
+                    }
+                }));
+            }
+            r.set_public_inputs(&pubs).map_err(|e| format!("{e:?}"))?;
+            let capacity_ext = cfg.capacity_ext();
+            let (mut pi, mut oi) = (0usize, 0usize);
+            while oi < ops.len() {
+                let op = ops[oi];
+                let mut flat = Vec::new();
+                let mut n = 0usize;
+                while oi < ops.len() && ops[oi] == op {
+                    flat.extend(pack_digest(&proof[pi]));
+                    pi += 1;
+                    oi += 1;
+                    n += 1;
+                }
+                for _ in n..3 {
+                    flat.extend(vec![CF::ZERO; capacity_ext]);
+                }
+                r.set_private_data(op, perm_private_data(cfg, flat)).map_err(|e| format!("{e:?}"))?;
+            }
+            r.run().map_err(|e| format!("{e:?}"))?
+        };
+        let probed: Vec<Vec<u64>> = (0..DIGEST_ELEMS / 4).map(|k| traces.probe(&format!("cap{k}")).map(|v| crate::gprog::f_to_u64s::<F, CF>(v)).unwrap_or_default()).collect();
+        Ok((circuit, traces, probed, fired.load(Ordering::SeqCst) > 0))
+    }
+
     pub fn run_case(shape: &MmcsShape, f: &MFault) -> Result<CaseOut, String> {
         let (perm, m) = mmcs(shape.cap_height);
         let ms = mats(shape);
